@@ -8,9 +8,11 @@ import (
 
 // paramPositivity reads Params.Validate of a types package at AST level and returns, per Params field, the
 // positive-only flag the repo's validate helpers are called with. Three idioms of the repo are recognised:
-//   A  validateXxx(name, <bool>)(p.F)            (oracle, tunnel, bandtss)
-//   B  validateXxx(name, <bool>, p.F)            (feeds)
-//   C  a table of {name, p.F, <bool>} rows ranged over and passed to idiom A/B    (tss)
+//
+//	A  validateXxx(name, <bool>)(p.F)            (oracle, tunnel, bandtss)
+//	B  validateXxx(name, <bool>, p.F)            (feeds)
+//	C  a table of {name, p.F, <bool>} rows ranged over and passed to idiom A/B    (tss)
+//
 // pos[field] is the source position of the row / call.
 func (w *World) paramPositivity(pkgRel string) (flags map[string]bool, pos map[string]string, err error) {
 	p := w.PkgBy[pkgRel]
